@@ -25,6 +25,7 @@ pub struct BCfg {
     pub ip_mtu: usize,
     pub caps: usize,
     pub poison: u8,
+    pub short_hw: bool,
 }
 
 #[derive(Clone, Debug, PartialEq)]
@@ -133,7 +134,7 @@ impl Harness for EgBfs {
     type Cfg = BCfg;
     type Ev = BEv;
     fn new(cfg: &BCfg) -> EgBfs {
-        let rc = RigCfg { medium: cfg.medium, ip_mtu: cfg.ip_mtu, caps: cfg.caps, slaac: false, v4_addr: !cfg.v6, ll_addr: true, ula_addr: cfg.v6, poison: cfg.poison };
+        let rc = RigCfg { medium: cfg.medium, ip_mtu: cfg.ip_mtu, caps: cfg.caps, slaac: false, v4_addr: !cfg.v6, ll_addr: true, ula_addr: cfg.v6, poison: cfg.poison, short_hw: cfg.short_hw, ll_from_short: false };
         let mut rig = Rig::new(rc);
         let udp = udp_socket(&mut rig, 7000, None);
         let mut s = icmp::Socket::new(
@@ -258,14 +259,16 @@ pub fn configs(tier: Tier) -> Vec<(BCfg, usize)> {
     // quick tier: depth 4 where fragmentation paths and header compression live, 3 elsewhere
     let (d, d5, dl) = if tier == Tier::Quick { (4, 4, 3) } else { (d, d5, d5) };
     vec![
-        (BCfg { name: "seq-eth-v4-mtu576", medium: Medium::Ethernet, v6: false, ip_mtu: 576, caps: 0, poison: POISON }, d5),
-        (BCfg { name: "seq-eth-v4-mtu68", medium: Medium::Ethernet, v6: false, ip_mtu: 68, caps: 0, poison: POISON }, dl),
-        (BCfg { name: "seq-ip-v4-mtu576", medium: Medium::Ip, v6: false, ip_mtu: 576, caps: 0, poison: POISON }, dl),
-        (BCfg { name: "seq-eth-v6-mtu1280", medium: Medium::Ethernet, v6: true, ip_mtu: 1280, caps: 0, poison: POISON }, dl),
-        (BCfg { name: "seq-154-v6", medium: Medium::Ieee802154, v6: true, ip_mtu: 127, caps: 0, poison: POISON }, d),
-        (BCfg { name: "seq-154-v6-all-tx-off", medium: Medium::Ieee802154, v6: true, ip_mtu: 125, caps: 6, poison: POISON }, dl),
+        (BCfg { name: "seq-eth-v4-mtu576", medium: Medium::Ethernet, v6: false, ip_mtu: 576, caps: 0, poison: POISON, short_hw: false }, d5),
+        (BCfg { name: "seq-eth-v4-mtu68", medium: Medium::Ethernet, v6: false, ip_mtu: 68, caps: 0, poison: POISON, short_hw: false }, dl),
+        (BCfg { name: "seq-ip-v4-mtu576", medium: Medium::Ip, v6: false, ip_mtu: 576, caps: 0, poison: POISON, short_hw: false }, dl),
+        (BCfg { name: "seq-eth-v6-mtu1280", medium: Medium::Ethernet, v6: true, ip_mtu: 1280, caps: 0, poison: POISON, short_hw: false }, dl),
+        (BCfg { name: "seq-154-v6", medium: Medium::Ieee802154, v6: true, ip_mtu: 127, caps: 0, poison: POISON, short_hw: false }, d),
+        (BCfg { name: "seq-154-v6-all-tx-off", medium: Medium::Ieee802154, v6: true, ip_mtu: 125, caps: 6, poison: POISON, short_hw: false }, dl),
         // the complementary transmit-buffer pre-fill
-        (BCfg { name: "seq-154-v6-prefill-5a", medium: Medium::Ieee802154, v6: true, ip_mtu: 127, caps: 0, poison: POISON2 }, d5),
+        (BCfg { name: "seq-154-v6-prefill-5a", medium: Medium::Ieee802154, v6: true, ip_mtu: 127, caps: 0, poison: POISON2, short_hw: false }, d5),
+        // short hardware address: 9-octet MAC header towards the link broadcast address
+        (BCfg { name: "seq-154-v6-short-hw", medium: Medium::Ieee802154, v6: true, ip_mtu: 125, caps: 0, poison: POISON, short_hw: true }, d5),
     ]
 }
 pub fn cfg_by_debug(s: &str) -> Option<BCfg> {
